@@ -271,6 +271,12 @@ def r5_recursion(chk):
         pth in [n.id for n in ast.walk(joins[0].args[0]) if isinstance(n, ast.Name)] and \
         norm(loops_[0].target) in [n.id for n in ast.walk(joins[0].args[1]) if isinstance(n, ast.Name)] and \
         rec and norm(rec[0].args[0]) == norm(common.stmt_of(joins[0]).targets[0])
+    if rec:
+        gs_ = _g(rec[0], fn)
+        d_ = norm(rec[0].args[0]) if rec[0].args else '?'
+        chk.ob('C14.R5', 'FileReader.getSubdirs/every-sub-directory-entered', gs_ == [('os.path.isdir(%s)' % d_, True)],
+               where(ci.mod, rec[0]), 'the recursion depends on more than the entry being a directory (guards %s): '
+               'directories of the source - symbolic links to directories included - are left unsearched' % gs_)
     chk.ob('C14.R5', 'FileReader.getSubdirs/child-path', bool(ok), where(ci.mod, fn),
            'a sub-directory is os.path.join(<parent>, <listdir entry>) and that path is what is tested and recursed into')
     zi = model.cls(ZIP, 'ZipReader')
